@@ -22,7 +22,7 @@ CLAIMS = {
          'all random draws. randomizer_bin_und: its rewiring loop is proved as a fragment (for every entry state with a symmetric 0/1 working matrix, INF diagonal and an edge list of present pairwise different connections: every pass keeps every node degree, and the entries still ahead of the loop counter keep naming present, pairwise different connections, which is what makes the next swap legitimate), and the whole function is proved for the executions that take neither the complement nor the full-node branch (path assumption, stated in the evidence; the fragment is used modularly and its entry conditions are obligations of that contract); the complement / full-node preprocessing and its undoing are bounded only (all graphs n<=5, both dtypes). The same contracts are also woven into the real '
          'functions and run over all graphs n=4 / sampled n=5 with every random-choice script to a stated depth (bounded cross-check, supplies replay inputs).',
          PROOF_NOTE + ' Abstracted blocks (havoc of their write set, syntactic frame obligation): connectivity test of the *_connected variants, default-D construction of the latticisers.',
-         'contract-based deductive verification: own AST->VC generator (pyvc) + z3 on the real source; runtime-woven contracts on exhaustive small scopes as bounded stand-in', '5/C01'),
+         'contract-based deductive verification: own AST->VC generator (pyvc) + z3 on the real source (nine rewiring routines whole; randomizer_bin_und: rewiring loop as a fragment and whole function under a recorded path assumption); runtime-woven contracts on exhaustive small scopes as bounded stand-in', '5/C01'),
  'C06': ('proof',
          'Deductive for randmio_dir_signed and randmio_und_signed (loop invariants: per-node positive/negative in- and out-degree counts, positive and negative weight '
          'multisets via arbitrary F, diagonal untouched, symmetry, eff=0 => identity; callee pick_four_unique_nodes_quickly by contract), all discharged by z3 for all n '
@@ -68,7 +68,7 @@ CLAIMS = {
          'already visited whose returned core contains the node, and no visited level >= 1 above it does; at exit coreness = the largest k < N whose core contains the node, kn[k] = the reported core size. '
          'Nestedness (the (k+1)-core lies inside the k-core; the s2-core inside the s1-core for s1 <= s2) of kcore_bu, kcore_bd and score_wu is a corollary over their contracts: the maximality clause of the k-core, applied to the connected nodes of the (k+1)-core (contracts/corollaries.py; counting lemmas in Lean). The peel-order outputs are bounded only (all graphs n<=5/4, every k, subset-enumeration oracle); in+out degree >= N for kcoreness_centrality_bd is a known finding.',
          PROOF_NOTE + ' Lemmas lemma_masked_degree, lemma_degree_monotone and the callee contracts of degrees_und/degrees_dir/strengths_und are assumed (code-independent statements).',
-         'pyvc + z3 with ghost state and a Skolem set for maximality, modular caller contracts for the coreness routines; bounded subset-enumeration oracle for peel orders', '5/C15'),
+         'pyvc + z3 with ghost state and a Skolem set for maximality, modular caller contracts for the coreness routines, nestedness as corollaries over the core contracts; bounded subset-enumeration oracle for peel orders', '5/C15'),
  'C02': ('proof',
          'Deductive (pyvc+z3) for modularity_finetune_und and modularity_finetune_dir, whole function bodies, all networks with positive total weight (symmetric for _und), all gamma, all start '
          'partitions with arbitrary labels, all visiting orders: the returned labels are exactly 1..k (np.unique rank contract) and the returned q equals the modularity Q(W, ci, gamma) of the '
@@ -95,7 +95,7 @@ CLAIMS = {
          'recorded node list is a walk from the source along existing connections; on success it ends at the target and the reported lengths are its hop count, summed connection length and summed distance; on failure all three are infinite. '
          'The enclosing loops, the PL matrices, the dict of paths and the success ratio are bounded only.',
          PROOF_NOTE + ' The producer establishes FloydConsistent deductively for transform=None (np.isclose modelled as equality); for the other transforms it is checked by the bounded tier on the producer.',
-         'pyvc + z3 for the consumer against an abstract producer contract and for the walk loop of navigation_wu (fragment); producer contract and navigation bookkeeping checked at run time on exhaustive small scopes (bounded)', '5/C12'),
+         'pyvc + z3: retrieve_shortest_path against the precondition FloydConsistent, distance_wei_floyd (transform=None) establishing it, the composition as a corollary over the two contracts, and the walk loop of navigation_wu (fragment); transforms of the producer and navigation bookkeeping checked at run time on exhaustive small scopes (bounded)', '5/C12'),
  'C09': ('proof',
          'numpy->Lean extraction of the REAL source of clustering_coef_bd/wd/wu and transitivity_bu/bd/wu/wd on every run, and stored Lean proofs (all n, all real matrices; cuberoot as an abstract '
          'cbrt with cbrt x ^ 3 = x) that each value equals its triple-enumeration definition: Fagiolo numerators (1/2) sum_{j,h} (a_ij+a_ji)(a_jh+a_hj)(a_hi+a_ih) and denominators K(K-1)-2 K_bi, Onnela '
@@ -122,7 +122,7 @@ CLAIMS = {
          'modularity_und_sign (5 qtypes, relative to the rank contract of np.unique and free node degrees) are invariant under renaming of labels — 9 theorems. participation_coef (degree undirected/out) is proved (pyvc+z3) to return 1 - sum_m modsum(W, ci, x, m)^2 / strength(x)^2 (0 for isolated nodes) for the rank labels produced by np.unique, an expression that depends on the labels only through the partition (Lean: msq_relabel); the statement of the property for this routine -- two label vectors that induce the same partition, contiguous or not, give the same coefficients -- is discharged as a corollary over that contract (contracts/relabelling.py). participation_coef_sign, '
          'module_degree_zscore, diversity_coef_sign, partition_distance (symmetry, identity, range), agreement, ci2ls/ls2ci are BOUNDED only (all partitions n<=5 x relabellings incl. zero-based, '
          'non-contiguous, negative). gateway_coef_sign is a known finding.',
-         BND_NOTE % 'C14' + LX, 'Lean label-invariance proofs for the modularity values; relabelling on all partitions of small node sets (bounded) for the other consumers', '5/C14'),
+         BND_NOTE % 'C14' + LX, 'Lean label-invariance proofs for the modularity values; pyvc functional contract of participation_coef + corollary (same partition, any labels: same result); relabelling on all partitions of small node sets (bounded) for the other consumers', '5/C14'),
 }
 CLAIMS['C16'] = ('exploration', BND + 'The body of get_components builds a Python list of sets with comprehensions: outside the VC generator\'s subset (and its natural invariant is a nested-quantifier list-of-sets '
                  'statement, DESIGN 5/C16). Two parts are discharged deductively on every run: (a) that distance_bin, breadthdist and reachdist agree with each other entry by entry off the diagonal (and the two reachability flags agree and mean "finite distance") is a corollary over their proved contracts (contracts/corollaries.py, networks without self-loops); (b) the rejection clause (prefix contract: execution passes the symmetry check only if A[x,y] = A[y,x] for all cells, every other '
@@ -133,8 +133,8 @@ CLAIMS['C03'] = ('other', 'Mixed: distance_bin is proved for ALL graphs (pyvc+z3
                  'the result is the shortest-walk (= shortest-path) length, INF exactly when unreachable, 0 on the diagonal. efficiency_bin (global variant) is proved too: its nested helper distance_inv runs the same loop and returns 1/length (0 where there is no path, 0 on the diagonal; proved on its own, used through its contract) and E = sum of these inverses / (n*n - n). breadth (BFS from one source: the classical queue invariant -- queue = the gray nodes in level order spanning at most two levels, discovered nodes carry the shortest-walk length, black nodes have no undiscovered neighbour, everything up to the head level is discovered; exit by the Lean-proved closure lemma) and breadthdist (modular on breadth; reachability flag = finite distance) are proved for networks without self-loops. reachdist (ensure_binary=True) is proved as well: its recursive helper reachdist2 against its own contract (after accumulating the powers 1..p: R marks the pairs within p connections, D counts the powers at which a pair was reachable), the inversion `powr - D + 1`, the depth limit n+2 and the explicit infinities for nodes without incoming / outgoing connections give the shortest-path length, INF exactly when unreachable, and the flag R = finite distance. distance_wei (Dijkstra with batches of equidistant nodes; non-negative lengths) is proved for its distance matrix: permanent nodes hold wd, the batch is exactly the temporary nodes at the current minimum, every other temporary node holds its tentative value (minimum over connections from permanent nodes, attained at a ghost predecessor) strictly above the batch, G1 has the columns of permanent nodes cleared; the Lean-proved Dijkstra step (the minimum tentative value is the true distance, nothing reachable is closer, all-infinite means unreachable) closes each round; its edge-count output B is not specified. Everything else the property names (distance_wei_floyd, edge-count '
                  'outputs, agreement of the five routines, charpath / local efficiency / rout_efficiency means) is BOUNDED only: independent min-plus closure / BFS oracle on all digraphs n<=3/4, graphs n<=5/6, tie palettes, transforms. Level is '
                  'other (mixed): all five distance routines (distance_bin, distance_wei, distance_wei_floyd for transform=None and transform=inv -- Floyd-Warshall: every finite entry is the length of a walk and no walk whose intermediate nodes are below the pivot counter is shorter, by the Lean-proved decomposition of a walk at the pivot --, breadthdist, reachdist), efficiency_bin and efficiency_wei (both global variant; efficiency_wei: invert through its contract, nested Dijkstra helper distance_inv_wei proved on its own, E = sum of 1/(minimum total length 1/w) over ordered pairs / (n*n-n)) are proved (for distance_wei also its edge-count matrix B: contract distance_wei:edges, every finite entry D[u,w] is the length of a walk with exactly B[u,w] connections, hence at exit of a minimum-length path; for distance_wei_floyd also the edge-count clause: by the contract distance_wei_floyd:paths and the contract of retrieve_shortest_path, see C12, following Pmat from s to t takes exactly hops[s,t] existing connections whose lengths add up to SPL[s,t], the minimum), and so are corollaries over these contracts (contracts/corollaries.py): distance_wei = distance_bin on 0/1 matrices, and distance_bin = breadthdist = reachdist off the diagonal with agreeing reachability flags; the log transform of distance_wei_floyd, charpath and the local variants are bounded.', BND_NOTE % 'C03' + ' Proved part: ' + PROOF_NOTE + ' Walk lemmas (incl. the pigeonhole bound sdist <= n-1) and INF > n are assumed.',
-                 'pyvc + z3 + walk lemmas for distance_bin; exhaustive small-scope comparison with an independent min-plus/BFS oracle (bounded) for the rest', '5/C03')
-for _pid in ['C08', 'C16', 'C18', 'C19', 'C20']:
+                 'pyvc + z3 + Lean-proved graph lemmas (walks, Dijkstra step, Floyd-Warshall pivot decomposition) for all five distance routines (distance_wei_floyd: transform None / inv), efficiency_bin / efficiency_wei (global) and corollaries over these contracts; exhaustive small-scope comparison with an independent min-plus/BFS oracle (bounded) for charpath, rout_efficiency, the log transform and the local variants', '5/C03')
+for _pid in ['C08', 'C18', 'C19', 'C20']:
     CLAIMS[_pid] = ('exploration', BND + 'See DESIGN.md section 5/%s for the clauses and why the deductive tier does not (yet) reach them.' % _pid,
                     BND_NOTE % _pid, 'runtime contracts on the real code over exhaustive small scopes (bounded stand-in)', '5/' + _pid)
 CLAIMS['C18'] = ('exploration',
@@ -160,7 +160,7 @@ CLAIMS['C20'] = ('other',
                  'the excess is at most the size of the last band, the removal loop clears exactly `overby` distinct cells of the last band: exactly k connections, nearer bands full, farther bands empty, empty diagonal. '
                  'makefractalCIJ: the final part (from the probability matrix to the return) is proved as a fragment for an arbitrary exponent matrix: the result is 0/1 with an empty diagonal and the reported count is its number of connections (template side assumed equal to n; the power is uninterpreted). BOUNDED only: makeevenCIJ, the hierarchical template of makefractalCIJ, makerandCIJdegreesfixed (degree sequences), and the parameter grids of all seven generators (n<=8, every k, seeds).',
                  BND_NOTE % 'C20' + ' Proved part: ' + PROOF_NOTE + ' Counting lemmas are assumed in SMT and proved in Lean (section gencount); scipy/RandomState library contracts are assumed.',
-                 'pyvc + z3 + Lean-proved counting lemmas for four generators; exhaustive parameter grids (bounded) for the other three', '5/C20')
+                 'pyvc + z3 + Lean-proved counting lemmas for four generators and the final part of makefractalCIJ (fragment); exhaustive parameter grids (bounded) for the rest', '5/C20')
 CLAIMS['C08'] = ('exploration',
                  'Mostly bounded. Deductive part (pyvc+z3, all binary graphs): the FORWARD PASS of betweenness_bin, as a prefix contract up to the dependency accumulation: the powers loop maintains NPd = G^d (value) with support = walks '
                  'of d connections, L[x,y] = shortest-path length for found pairs, no walk of at most d connections for open pairs, NSP[x,y] = (G^t)[x,y] for pairs found at length t; at the end L is the shortest-path length (INF exactly when '
